@@ -220,6 +220,9 @@ def process_scope(
         if window_end is None:
             window_end = pos
         window_end = min(window_end, end)
+        if window_end == end and end and buff[end - 1] == endchar:
+            # a walker ran past the terminating sentinel; it is not part of the data
+            window_end = end - 1
         out.write(buff[window_start:window_end].encode("utf-8"))
 
     return pos
